@@ -212,6 +212,14 @@ class LazyRegistry(Generic[facets.QuantityT, facets.UnitT]):
         self.__init()
         return self(*args, **kwargs)
 
+    def __contains__(self, item):
+        self.__init()
+        return item in self
+
+    def __iter__(self):
+        self.__init()
+        return iter(self)
+
 
 class ApplicationRegistry:
     """A wrapper class used to distribute changes to the application registry."""
